@@ -211,6 +211,8 @@ pub struct ReqGen {
     pub allow_dup_ids: bool,
     /// map the small key indices onto extreme u64 ids (backends store ids as signed integers)
     pub extreme_ids: bool,
+    /// rotates which of the extreme ids the key indices map to
+    pub id_offset: usize,
 }
 
 // (the first three are what the small histories use: both sides of the signed boundary)
@@ -218,7 +220,7 @@ const EXTREME_IDS: [u64; 16] = [u64::MAX, (1 << 63) + 1, 0, 1 << 63, (1 << 63) -
 
 impl ReqGen {
     pub fn new(rng: StdRng, span_ms: u64, allow_dup_ids: bool) -> Self {
-        Self { rng, used: BTreeSet::new(), keys: 3, base_ms: 50_000_000, span_ms, origins: (2, 5), allow_dup_ids, extreme_ids: false }
+        Self { rng, used: BTreeSet::new(), keys: 3, base_ms: 50_000_000, span_ms, origins: (2, 5), allow_dup_ids, extreme_ids: false, id_offset: 0 }
     }
 
     pub fn fresh_ts(&mut self) -> HLCTimestamp {
@@ -237,7 +239,7 @@ impl ReqGen {
     fn key(&mut self) -> Key {
         let k = self.rng.gen_range(0..self.keys);
         if self.extreme_ids {
-            EXTREME_IDS[k as usize % EXTREME_IDS.len()]
+            EXTREME_IDS[(k as usize + self.id_offset) % EXTREME_IDS.len()]
         } else {
             k
         }
@@ -651,6 +653,9 @@ async fn c07_phase1<I: Backing>(rng: &mut StdRng, i: u64, out: &mut CaseOut, inn
     }
     // every third history uses extreme u64 ids (0, 2^63, u64::MAX, ...)
     g.extreme_ids = i % 3 == 0;
+    // (which three of them a small history uses rotates: pairs whose numeric order and little-endian byte
+    // order disagree - 1 / 256, 255 / 256, 2^32-1 / 2^32 - come up as well as the sign boundary)
+    g.id_offset = if i % 2 == 0 { 0 } else { (i / 3) as usize % EXTREME_IDS.len() };
     let nreq = if large { g.rng.gen_range(10..40) } else { g.rng.gen_range(1..10) };
     let crash_inside = g.rng.gen_bool(0.5);
     let keyspaces = ["a", "b"];
@@ -1003,12 +1008,15 @@ async fn c18_round(seed: u64, r: u64, k: usize, entry: u64, pre_yield: bool) -> 
             return out;
         },
     };
-    let ksn = format!("fresh-{seed}-{r}");
+    // one round in three makes its first uses on ONE fresh name, the others on two or three DIFFERENT fresh
+    // names at the same time (the creation of one keyspace must not disturb the creation of another)
+    let ksns: Vec<String> = (0..1 + (r % 3) as usize).map(|j| format!("fresh-{seed}-{r}-{j}")).collect();
     let base = 70_000_000u64;
     let mut handles = Vec::new();
     for t in 0..k {
         let group = node.group.clone();
-        let ksn = ksn.clone();
+        let name_idx = t % ksns.len();
+        let ksn = ksns[name_idx].clone();
         let mut rng = rng_for(seed, 0xC18_000 + r, t as u64);
         let stamp = ts(base + t as u64 * 4, 0, 10 + t as u8);
         let chan = Channel::connect(addr);
@@ -1072,24 +1080,34 @@ async fn c18_round(seed: u64, r: u64, k: usize, entry: u64, pre_yield: bool) -> 
                     ks.send(ecv::Del { source: 0, doc: DocumentMetadata::new(id, stamp), _marker: PhantomData }).await.is_ok()
                 },
             };
-            (id, stamp, ok, is_del)
+            (name_idx, id, stamp, ok, is_del)
         }));
     }
-    let mut acked = Vec::new();
-    let mut acked_dels = Vec::new();
+    let mut all_acked = Vec::new();
+    let mut all_acked_dels = Vec::new();
     for h in handles {
         match h.await {
-            Ok((id, stamp, true, false)) => acked.push((id, stamp)),
-            Ok((id, stamp, true, true)) => acked_dels.push((id, stamp)),
+            Ok((n, id, stamp, true, false)) => all_acked.push((n, id, stamp)),
+            Ok((n, id, stamp, true, true)) => all_acked_dels.push((n, id, stamp)),
             Ok(_) => {},
             Err(e) => out.inconclusive = Some(format!("task failed: {e}")),
         }
+    }
+    out.count("first_uses", k as u64);
+    if ksns.len() > 1 {
+        out.count("rounds_with_first_uses_of_several_names_at_once", 1);
+    }
+    for (name_idx, ksn) in ksns.iter().enumerate() {
+    let ksn = ksn.clone();
+    let mut acked: Vec<(Key, HLCTimestamp)> = all_acked.iter().filter(|a| a.0 == name_idx).map(|a| (a.1, a.2)).collect();
+    let mut acked_dels: Vec<(Key, HLCTimestamp)> = all_acked_dels.iter().filter(|a| a.0 == name_idx).map(|a| (a.1, a.2)).collect();
+    if acked.is_empty() && acked_dels.is_empty() {
+        continue;
     }
     acked.sort();
     acked_dels.sort();
     out.count("first_uses_that_were_deletes", acked_dels.len() as u64);
     let creations = ecv::take_add_state_calls(&ksn);
-    out.count("first_uses", k as u64);
     out.count("keyspace_states_created", creations as u64);
     if creations >= 2 {
         out.count("rounds_with_overlapping_first_use", 1);
@@ -1101,7 +1119,7 @@ async fn c18_round(seed: u64, r: u64, k: usize, entry: u64, pre_yield: bool) -> 
     if !advertised.contains_key(&ksn) {
         out.violate(
             "C18:keyspace-in-use-not-advertised-to-peers",
-            json!({"keyspace": ksn, "advertised": advertised.keys().collect::<Vec<_>>(), "concurrent_first_uses": k, "states_created": creations}),
+            json!({"keyspace": ksn, "advertised": advertised.keys().collect::<Vec<_>>(), "concurrent_first_uses": k, "names_first_used_at_once": ksns.len(), "states_created": creations}),
         );
     }
     // a later lookup
@@ -1113,7 +1131,7 @@ async fn c18_round(seed: u64, r: u64, k: usize, entry: u64, pre_yield: bool) -> 
             if !missing_dels.is_empty() {
                 out.violate(
                     "C18:acknowledged-delete-missing-from-the-keyspace-state",
-                    json!({"concurrent_first_uses": k, "states_created": creations, "acknowledged_deletes": acked_dels.len(),
+                    json!({"keyspace": ksn, "concurrent_first_uses": k, "names_first_used_at_once": ksns.len(), "states_created": creations, "acknowledged_deletes": acked_dels.len(),
                         "missing": missing_dels.iter().map(|m| json!([m.0, ts_json(m.1)])).collect::<Vec<_>>(), "state": listing_json(&listing)}),
                 );
             }
@@ -1121,7 +1139,7 @@ async fn c18_round(seed: u64, r: u64, k: usize, entry: u64, pre_yield: bool) -> 
             if !missing.is_empty() {
                 out.violate(
                     "C18:acknowledged-operation-missing-from-the-keyspace-state",
-                    json!({"concurrent_first_uses": k, "states_created": creations, "acknowledged": acked.len(), "missing": missing.iter().map(|m| json!([m.0, ts_json(m.1)])).collect::<Vec<_>>(), "state": listing_json(&listing)}),
+                    json!({"keyspace": ksn, "concurrent_first_uses": k, "names_first_used_at_once": ksns.len(), "states_created": creations, "acknowledged": acked.len(), "missing": missing.iter().map(|m| json!([m.0, ts_json(m.1)])).collect::<Vec<_>>(), "state": listing_json(&listing)}),
                 );
             }
             match store_listing(node.store.as_ref(), &ksn).await {
@@ -1134,11 +1152,12 @@ async fn c18_round(seed: u64, r: u64, k: usize, entry: u64, pre_yield: bool) -> 
         },
         Err(e) => out.inconclusive = Some(e),
     }
+    if r % 997 == 5 {
+        out.sample = Some(json!({"keyspace": ksn, "names_first_used_at_once": ksns.len(), "concurrent_first_uses": k, "entry_point_rotation": entry % 4, "states_created": creations, "acknowledged": acked.len()}));
+    }
+    }
     if !out.violations.is_empty() {
         out.replay = Some(json!({"round": r, "k": k, "entry": entry}));
-    }
-    if r % 997 == 5 {
-        out.sample = Some(json!({"keyspace": ksn, "concurrent_first_uses": k, "entry_point_rotation": entry % 4, "states_created": creations, "acknowledged": acked.len()}));
     }
     node.stop();
     out
